@@ -154,6 +154,7 @@ type fnTrans struct {
 	usedImmut     map[string]bool
 	locPtrs       map[string]Term
 	lockGhosts    map[string]bound
+	callSeq       int
 	allowed       map[string][]Term
 	allowedAll    bool
 	allowedDone   bool
@@ -238,10 +239,19 @@ func (t *fnTrans) get(st *State, name string) Term {
 		return v
 	}
 	base := name
+	prefix := ""
 	if i := strings.LastIndex(name, ":"); i >= 0 {
-		base = name[i+1:]
+		base, prefix = name[i+1:], name[:i]
 	}
 	sv := t.vars[base]
+	if strings.HasPrefix(prefix, "call") {
+		// lock-point snapshot of a CALLEE (atlock/atunlock in its ensures): an unknown intermediate state
+		n := sanitize(prefix) + "_" + base
+		if sv != nil {
+			t.declare(n, sv.Sort)
+		}
+		return n
+	}
 	n0 := base + "_0"
 	if sv != nil {
 		t.declare(n0, sv.Sort)
@@ -634,10 +644,10 @@ func (t *fnTrans) rootLoad(st *State, p *Path) (Term, types.Type, []Sel) {
 		}
 		f := p.Sels[0]
 		fv := t.fieldVar(p.Typ, f.Field)
-		return fmt.Sprintf("(select %s %s)", t.get(st, fv.Name), p.Ref), f.Struct.Field(f.Field).Type(), p.Sels[1:]
+		return sel(t.get(st, fv.Name), p.Ref), f.Struct.Field(f.Field).Type(), p.Sels[1:]
 	}
 	dv := t.derefVar(p.Typ)
-	return fmt.Sprintf("(select %s %s)", t.get(st, dv.Name), p.Ref), p.Typ, p.Sels
+	return sel(t.get(st, dv.Name), p.Ref), p.Typ, p.Sels
 }
 
 func (t *fnTrans) applySels(v Term, ty types.Type, sels []Sel) (Term, types.Type) {
@@ -1049,6 +1059,7 @@ func (t *fnTrans) pass() {
 	t.seqViews, t.seqFacts = nil, nil
 	t.locPtrs = nil
 	t.lockGhosts = nil
+	t.callSeq = 0
 	t.allowedDone, t.allowed, t.allowedAll = false, nil, false
 	t.S.decls, t.S.declared, t.S.axioms = nil, map[string]bool{}, nil
 	t.S.strLits, t.S.strOrder = map[string]string{}, nil
